@@ -13,7 +13,14 @@ PROP = Prop(
          "records of 1..260 partitions; the real client buffers them (recBuf.bufferRecord), builds requests (sink.createReq/tryAddBatch) and "
          "serialises them (AppendRequest/AppendTo); generators: small random requests, varint/compact-prefix boundary sizes, many one-record "
          "partitions packed to BrokerMaxWriteBytes, one partition filled to ProducerBatchMaxBytes with single records swept across the limit, "
-         "real codecs (gzip/snappy/lz4/zstd, preferences) and toy compressors with controlled output sizes. wire: real client through the public "
+         "real codecs (gzip/snappy/lz4/zstd, preferences) and toy compressors with controlled output sizes; records with 0-3 headers of 0-700 "
+         "header bytes (a message, Produce v0-v2, drops them; a v2 record carries them): a fixed grid of single records whose one-record "
+         "batch is maxBatchBytes-4..+6/+20/+40 with 0/60/200 header bytes at written versions 2,3,8,9,13 (thorough: every version 0-13, "
+         "-8..+12/+-20/+-40/+100, seven header sizes), version unknown and known, and random single / packed partitions whose batch reaches "
+         "maxBatchBytes-40..+40 through a header-heavy record (incl. records that fit only if their headers are not counted), each buffered "
+         "with the sink version unknown (62 %), equal to the written version (34 %) or (4 %, outside the assumption below: listed findings) a known "
+         "other version, against every written version 0-13; the Spec's batch and request bounds are evaluated on the written bytes of every "
+         "case. wire: real client through the public "
          "API against the real kfake, frames captured at the dialer. Non-trivial = at least one request with at least one batch was written. "
          "distinct = distinct op lines.",
     trusted_base=["hand-written model of the producer's batching, accounting and serialisers (Model/C18.lean), tied by byte-exact differential runs "
@@ -37,14 +44,18 @@ PROP = Prop(
             "fits the estimate max(2+lt+4, 21) (v13: < 2^28-1 partitions; v9-v12: compact lengths of name and partition count <= 5 bytes, e.g. "
             "name <= 126 bytes or < 2^21-1 partitions) and (< 16383 topics or a spare byte per topic). All theorems assume sink version = -1 or "
             "the written version; the two listed findings are exactly the violations outside that assumption. Batch bound proved for record "
-            "batches and for message sets buffered at the written (or an unknown) version.",
+            "batches and for message sets buffered at the written (or an unknown) version; records are arbitrary (any list of headers): "
+            "batch_bound_counts_headers restates the bound in key+value+header bytes, oversized_rejected / oversized_with_headers_rejected "
+            "prove that a record whose one-record batch (headers included) would reach the limit is failed, under record-batch accounting "
+            "(version unknown or >= 3).",
     run_timeout={"quick": 900, "thorough": 3000},
 )
 MANIFEST = {
     "text": "Lean theorems over a function-by-function model of kgo's producer batching (bufferRecord/tryBuffer/calculateRecordNumbers), request "
             "building (createReq/tryAddBatch) and serialisers (AppendTo/appendTo/appendToAsMessageSet/appendMessageTo/AppendRequest): for all record "
             "sets, configurations and compressors the accounted batch length is exactly what is written (<= when compressed), every record batch "
-            "stays below the configured maximum, a record is rejected only when it does not fit an empty batch, createReq's running wireLength equals "
+            "stays below the configured maximum (records with arbitrary headers; restated in key+value+header bytes), a record is rejected only when it "
+            "does not fit an empty batch and is rejected when its one-record batch with all its headers would reach the limit, createReq's running wireLength equals "
             "a closed form and is at most BrokerMaxWriteBytes, a written request is within BrokerMaxWriteBytes for every produce version 0-13 (version "
             "known to the sink; with side conditions while it is unknown), message sets stay below the configured batch maximum, and (v3-v13, no "
             "compressor) the independent strict reference decoder reads back from the written frame exactly the buffered records in order with "
